@@ -91,6 +91,8 @@ fn main() {
         for (target, seeds) in [
             ("decoders", vharness::fuzzsupport::decoders_seeds()),
             ("login_response", vharness::fuzzsupport::login_response_seeds()),
+            ("server_finish", vharness::fuzzsupport::server_finish_seeds()),
+            ("server_start", vharness::fuzzsupport::server_start_seeds()),
         ] {
             let dir = cfg.verif_dir.join("corpus").join(target);
             std::fs::create_dir_all(&dir).expect("create corpus dir");
@@ -166,6 +168,8 @@ fn main() {
                 // not a case file: a raw fuzz input (libFuzzer artifact or corpus file)
                 let target = match pid {
                     "C04" => "login_response",
+                    "C03" => "server_finish",
+                    "C08" => "server_start",
                     "C10" | "C11" | "C12" | "C13" => "decoders",
                     _ => {
                         println!("INCONCLUSIVE {file} is not a replay case of {pid}");
